@@ -6,7 +6,7 @@ Strategy: build an operation list that follows the protocol of the real callers
 (TransformStream::write: init_with / append / shift, Stack: push / drain) with a small reference
 simulation under an infinite limit, record every usage level the run goes through, then choose the
 limit M at / next to one of those levels (boundary bias), or 0, or far above, or usize::MAX.
-A malformed stream adds prealloc > M (finding F5), out-of-range shift/drain (caller contract
+A malformed stream adds prealloc > M / prealloc > isize::MAX (preallocation dropped), out-of-range shift/drain (caller contract
 violations = panics on both sides) and unparsable tokens.
 """
 
@@ -138,9 +138,9 @@ def gen_ops(rng, tier, prealloc, isz, malformed):
 def repair(rng, toks, M, prealloc, isz):
     """Replay under the real limit M (failed charges stay) and clamp shift/drain arguments that the
     failures made out of range, so that the run keeps going after an error."""
-    usage, acap, alen, vcap, vlen = prealloc, prealloc, 0, 0, 0
-    if prealloc > M:
-        return toks
+    # a preallocation that does not fit the limit (or isize::MAX) is dropped by Arena::new
+    fits = prealloc <= M and prealloc <= ISIZE_MAX
+    usage, acap, alen, vcap, vlen = (prealloc, prealloc, 0, 0, 0) if fits else (0, 0, 0, 0, 0)
     out = []
     for t in toks:
         c, arg = t[0], (int(t[1:]) if len(t) > 1 else 1)
@@ -211,10 +211,10 @@ def one(rng, tier):
         prealloc = rng.choice([ISIZE_MAX + 1, USIZE_MAX, ISIZE_MAX + 12345])
         M = rng.choice([USIZE_MAX, USIZE_MAX, ISIZE_MAX, prealloc])
     elif malformed and rng.random() < 0.5 and prealloc > 0:
-        M = rng.randrange(0, prealloc)  # F5
+        M = rng.randrange(0, prealloc)  # preallocation does not fit: dropped (was finding F5)
     elif M < prealloc and rng.random() < 0.7:
         M = prealloc  # keep most cases inside the theorem's hypothesis
-    if not malformed:
+    if not malformed or rng.random() < 0.7:
         toks = repair(rng, toks, M, prealloc, isz)
     if malformed and rng.random() < 0.1:
         toks.append(rng.choice(["x3", "a", "p-1", "s", "a1x"]))
@@ -235,6 +235,7 @@ def stats(cases, obs):
         "with_err": 0,
         "all_ok_nonempty": 0,
         "panic_prealloc": 0,
+        "prealloc_not_fitting": 0,
         "panic_shift_or_drain": 0,
         "bad_case": 0,
         "no_ops": 0,
@@ -258,6 +259,8 @@ def stats(cases, obs):
         if f[0] == "0":
             d["limit_zero"] += 1
         per_size[f[2]] = per_size.get(f[2], 0) + 1
+        if int(f[1]) > int(f[0]) or int(f[1]) > ISIZE_MAX:
+            d["prealloc_not_fitting"] += 1
         ne = main.count(" err:")
         no = main.count(" ok:")
         d["steps_ok"] += no
